@@ -12,7 +12,7 @@ BODIES = ["ls -l", "ls  -la   /tmp", "echo --opt=val -x 1e5x a.b/c ..", "echo $H
           "echo 1 2.5 0x1f 08 1_ 1..2", "echo -1 +2 *3", "echo a,b a:b a=b", "ls\t-l", "echo a\nb", "git commit\n-m msg\n--amend", "echo a\n  b", "cp a@(x)b.c dest", "tar czf @(name).tar.gz src", "@$(which python)/bin/x y", "echo ~ ~/x %d ^x", "echo @ a@b", "echo $A$B", "echo $(a b)$(c)", "echo ![x y]",
           "git commit -m 'msg here'", "echo a=$HOME", "echo $HOME:$PATH", "echo *.py **/*.txt", "echo <in >out", "echo a<b", "echo :=", "echo -> =>", "echo // ** <<= >>=",
           "echo $[inner x]", "echo !(obj y)", "echo print exec match case type _", "a", "a b c d e f", "-", "$X", "@(x)", "@$(y)", "$(z)"]
-ALPHABET = "abZ019_-./=:,+%^~*<>|&;@é \t\n$"
+ALPHABET = "abZ019_-./=:,+%^~*<>|&;@é\U0001d400\u0663 \t\n$"   # incl. a letter and a digit that NFKC / int() would change
 FORM_KEYS = list(oracles2.FORMS)
 
 
